@@ -329,15 +329,24 @@ def run_long(ctx, n_msgs):
     from .. import refpdu
     flood = [refpdu.enc_pdu(convs.echo_rq(i & 0xFFFF)) for i in range(1, n_msgs + 1)]
     big = convs.enc(*convs.store_rq_pdus(3, frag=30000))
-    for name, role, steps in (
+    ignorable = []
+    for i in range(n_msgs):
+        ignorable += [flood[i], convs.enc(convs.REL_RQ)[0], convs.enc(convs.REL_RP)[0]][:1 + i % 3]
+    for name, role, steps, min_inds in (
             ('acc-echo-flood', 'acceptor', [('burst', convs.enc(convs.RQ_SPEC)), ('user', {'pdu': convs.AC_SPEC}),
-                                            ('burst', flood + convs.enc(convs.ABORT_SP)), ('close',)]),
+                                            ('burst', flood + convs.enc(convs.ABORT_SP)), ('close',)], n_msgs),
+            # the local user has aborted; what the peer had in flight (a lot) still arrives and is ignored (AA-6)
+            ('acc-aborted-peer-floods', 'acceptor', [('burst', convs.enc(convs.RQ_SPEC)), ('user', {'pdu': convs.AC_SPEC}),
+                                                     ('user', {'pdu': convs.ABORT_SU}), ('burst', ignorable), ('close',)], 1),
+            ('req-released-peer-floods', 'requestor', [('user', {'pdu': convs.RQ_SPEC}), ('burst', convs.enc(convs.AC_SPEC)),
+                                                       ('burst', convs.enc(convs.REL_RQ)), ('user', {'pdu': convs.REL_RP}),
+                                                       ('burst', ignorable), ('close',)], 2),
             ('req-flood-with-big-pdus', 'requestor', [('user', {'pdu': convs.RQ_SPEC}), ('burst', convs.enc(convs.AC_SPEC)),
                                                       ('burst', flood[:n_msgs // 3] + big + flood[n_msgs // 3:] + big +
-                                                       convs.enc(convs.REL_RQ)), ('user', {'pdu': convs.REL_RP}), ('close',)])):
+                                                       convs.enc(convs.REL_RQ)), ('user', {'pdu': convs.REL_RP}), ('close',)], n_msgs)):
         base = observe(role, steps, None, budget=400000)
         total = sum(len(r) for s_ in steps if s_[0] == 'burst' for r in s_[1])
-        if base['outcome'] != 'returned' or len(base['inds']) < n_msgs:
+        if base['outcome'] != 'returned' or len(base['inds']) < min_inds:
             ctx.fail('C03:baseline:%s' % base['outcome'], '%s: reference delivery: %s, %d indications'
                      % (name, base['outcome'], len(base['inds'])), {'conv': name, 'cuts': None, 'long': n_msgs})
             continue
